@@ -286,3 +286,81 @@ func HC11_Events() {
 	x.check()
 	vReach("end")
 }
+
+func init() { vRegister("HC11_Reentrant", HC11_Reentrant) }
+
+// hReRec: a listener that itself changes the world while events of a batch are
+// being delivered (non-removal events arrive with the world unlocked, so this is
+// legal) and checks every event's id lists against its masks at delivery time.
+type hReRec struct {
+	w       *World
+	ids     [3]ID
+	n       int
+	nested  bool
+	allOK   bool
+	nBatch  int
+	batchOK bool
+	other   Entity
+}
+
+func (r *hReRec) Subscriptions() event.Subscription { return event.All }
+func (r *hReRec) Components() *Mask                 { return nil }
+func (r *hReRec) Notify(w *World, e EntityEvent) {
+	r.n++
+	ok := len(e.AddedIDs) == e.Added.TotalBitsSet() && len(e.RemovedIDs) == e.Removed.TotalBitsSet()
+	for _, id := range e.AddedIDs {
+		ok = ok && e.Added.Get(id)
+	}
+	for _, id := range e.RemovedIDs {
+		ok = ok && e.Removed.Get(id)
+	}
+	if !ok {
+		r.allOK = false
+	}
+	if !r.nested {
+		// an event of the outer batch: exactly component A was added
+		r.nBatch++
+		if !(len(e.AddedIDs) == 1 && e.AddedIDs[0] == r.ids[0] && e.Added == All(r.ids[0])) {
+			r.batchOK = false
+		}
+	}
+	if !r.nested && r.nBatch == 1 && !w.IsLocked() {
+		r.nested = true
+		w.NewEntityWith(Component{ID: r.ids[1], Comp: &hB{}}, Component{ID: r.ids[2], Comp: &hC{}})
+		w.Assign(r.other, Component{ID: r.ids[2], Comp: &hC{}})
+		w.Add(r.other, r.ids[1])
+		r.nested = false
+	}
+}
+
+// HC11_Reentrant: events of a batch stay exact while the listener performs further operations.
+func HC11_Reentrant() {
+	w := NewWorld(NewConfig().WithCapacityIncrement(1 + vChoice("capinc", 2)))
+	r := &hReRec{w: &w, allOK: true, batchOK: true}
+	r.ids = [3]ID{ComponentID[hA](&w), ComponentID[hB](&w), ComponentID[hC](&w)}
+	r.other = w.NewEntity()
+	how := vChoice("how", 4)
+	if how == 3 {
+		w.NewEntity()
+		w.NewEntity()
+		w.NewEntity()
+	}
+	w.SetListener(r)
+	switch how {
+	case 0:
+		NewBuilderWith(&w, Component{ID: r.ids[0], Comp: &hA{X: 5}}).NewBatch(3)
+	case 1:
+		q := NewBuilderWith(&w, Component{ID: r.ids[0], Comp: &hA{X: 5}}).NewBatchQ(3)
+		q.Close()
+	case 2:
+		NewBuilder(&w, r.ids[0]).NewBatch(3)
+	default:
+		all := All()
+		excl := all.Exclusive()
+		vAssert(w.Batch().Add(&excl, r.ids[0]) == 4, "Batch.Add returns the number of matching entities")
+		r.nBatch-- // the fourth matching entity is `other`
+	}
+	vAssert(r.allOK, "AddedIDs / RemovedIDs equal the masks as sets in every event, also while the listener changes the world")
+	vAssert(r.batchOK && r.nBatch == 3, "the events of a batch stay exact while the listener performs further operations")
+	vReach("end")
+}
